@@ -4442,8 +4442,8 @@ class NetCDFRead(IORead):
                     axes=ugrid_axis,
                     copy=True,
                 )
-                self._reference(ncvar, field_ncvar)
                 ncvar = self.implementation.nc_get_variable(domain_topology)
+                self._reference(ncvar, field_ncvar)
                 ncvar_to_key[ncvar] = key
 
         # ------------------------------------------------------------
@@ -4465,8 +4465,8 @@ class NetCDFRead(IORead):
                     axes=ugrid_axis,
                     copy=True,
                 )
-                self._reference(ncvar, field_ncvar)
                 ncvar = self.implementation.nc_get_variable(cell_connectivity)
+                self._reference(ncvar, field_ncvar)
                 ncvar_to_key[ncvar] = key
 
         if ugrid:
